@@ -349,12 +349,18 @@ func (o *Operator) handleCheckpointBarrier(ctx context.Context, senderID string,
 
 	if o.checkpoint.hasAllBarriers() {
 		checkpointID := o.checkpoint.checkpointID
-		o.processEventBatch(ctx, batching.CurrentBatch) // Must flush any pending events before checkpointing
+		flushErr := o.processEventBatch(ctx, batching.CurrentBatch) // Must flush any pending events before checkpointing
 
 		// The alignment for this checkpoint is over whatever happens next. Clear
 		// it before the steps that can fail so that a failed DKV checkpoint or
 		// acknowledgement cannot make the operator reject every later checkpoint id.
 		o.checkpoint = nil
+
+		// The flushed events have left the batcher. When the flush failed their
+		// effects are missing: no checkpoint may be taken (and acknowledged) without them.
+		if flushErr != nil {
+			return flushErr
+		}
 
 		cp, err := o.db.Checkpoint(checkpointID)()
 		if err != nil {
